@@ -148,7 +148,20 @@ def run(chk):
            and any("canonize_(to='first')" in A.text(b) for b in n.body)]
     chk.verdict("O4", (f, can[0] if can else fn), can[0].test if can else "canonise input", True if can and can[0].lineno < envdef[0].lineno else False,
                 "_dmrg_: a non-canonical input state is no longer canonised before the environments are built")
-    # 2-site: post_2site_ normalises? (truncation keeps norm via mask; check opts) -- informational only
+    # the norm factor of the input is reset before the environments are built, on every path: is_canonical() says nothing about
+    # psi.factor, and only the 1-site sweep resets it on its way (orthogonalize_site_(normalize=True)); the 2-site sweep never does
+    from ..core.cfg import CFG as _CFG
+    cfg0 = _CFG(fn)
+    psi_name = f.params[0]
+    resets = [st for st in [n_.ast for n_ in cfg0.nodes if isinstance(n_.ast, ast.stmt)]
+              if (isinstance(st, ast.Assign) and A.text(st.targets[0]) == f"{psi_name}.factor" and A.neg_const(st.value) == 1)
+              or (isinstance(st, ast.Expr) and isinstance(st.value, ast.Call) and A.callee_attr(st.value) == "canonize_" and A.text(st.value.func.value) == psi_name
+                  and not (A.kwarg(st.value, "normalize") is not None and not (isinstance(A.kwarg(st.value, "normalize"), ast.Constant) and A.kwarg(st.value, "normalize").value is True)))]
+    okr = bool(envdef) and bool(resets) and cfg0.must_pass([envdef[0]], resets)
+    chk.verdict("O4", (f, envdef[0] if envdef else fn), "the norm factor of the input is reset on every path to the construction of the environment", True if okr else False,
+                "_dmrg_: some path builds the environment without resetting `psi.factor` (canonize_ runs only if the input is not canonical, and "
+                "is_canonical() ignores the factor): a canonical input with factor f != 1 keeps it through 2-site sweeps -- the returned state has norm f "
+                "and the reported energy is f^2 times the true one (1-site sweeps reset it on their way)")
 
 
 
